@@ -1,35 +1,47 @@
 (* C16_Wire.v — wire glue for C16 (no proofs; exercised by the correspondence).
 
-   A case is a short PROGRAM: an initial memory and 1..3 helper calls that all
+   A case is a short PROGRAM: an initial memory and 1..4 helper calls that all
    receive the same argument values.
 
-   kind 0 (slices):  0 :: pre :: spare :: enc_zs es ++ tpre :: tspare :: enc_zs et ++ [fn;x;y]*
-       array 0 = pre sentinels ++ es ++ spare sentinels,  s = array0[pre : pre+n : pre+n+spare]
-       array 1 likewise for t.  Every call receives the SAME slice values s, t.
-   kind 1 (maps):    1 :: enc_zs m0 ++ enc_zs m1 ++ enc_zs ks ++ [fn;c;a]*
-       map 0 = m0, map 1 = m1; list-of-maps helpers receive [map0; map1; map0].
+     pre :: spare :: enc_zs es ++ tpre :: tspare :: enc_zs et ++ enc_zs m0 ++ enc_zs m1
+         ++ enc_zs L ++ enc_zs C ++ [fn;x;y]*
 
-   observation, per call k:  status (0 ok | 2 panic) ; enc_zss R_k (when ok: the
-       result, every slice/map of it as one list) ; enc_zs B0 ; enc_zs B1 (the
-       complete backing arrays incl. sentinels / both maps sorted by key,
-       after the call) ; then enc_zss R_j re-read for every earlier call j < k.
+       object 0 = pre sentinels ++ es ++ spare sentinels,  s = object0[pre : pre+n : pre+n+spare]
+       object 1 likewise for t;  object 2 = map0, object 3 = map1 (flat k v k v ...);
+       object 4 = 99 :: L ++ [99]: the caller's [][]int `lists` = object4[1 : 1+|L| : 2+|L|], cells are
+                  codes: 0 = s, 1 = t, c >= 2 = t[:(7c) mod (len t + 1)], 99 = a sentinel slice (object 9);
+       object 5 = 99 :: C ++ [99]: the caller's []map `coll` likewise, codes 0 = map0, 1 = map1, 99 = a
+                  sentinel map (object 10);
+       objects 6, 7 = the maps of maps {0: map0, 1: map1} and {2: map1} (values = codes);
+       object 8 = [99; 0; 1; 99]: the caller's []map[int]map[int]int `coll2` = object8[1:3:3].
+       Every call receives the SAME s, t, map0, map1, lists, coll, coll2.
+       The call codes are the table [call_of] below (mirrored in harness/c16.go).
 
-   The memory-level model (C16_Model) computes all of this for the helpers it
-   covers.  For the helpers covered by the harness only, the VALUE of the result
-   is taken from the observation (an oracle, [oracle_of]) and the model's claim
-   is the frame alone: such a call allocates its result and touches nothing
-   else.  Which helpers are which is the table in notes/C16.md.
+   observation, per call k:  status (0 ok | 2 panic) ; enc_zss R_k (when ok: what the
+       call returned, every slice/map of it as one list; maps sorted by key) ;
+       enc_zs B0 ; enc_zs B1 (the complete backing arrays incl. sentinels) ;
+       enc_zs M0 ; enc_zs M1 (both maps sorted by key) ; enc_zs of what every cell of the complete
+       outer arrays 4, 5 and 8 and of the caller's []any shows (length and elements of each slice / entries of each map),
+       all after the call ;
+       then enc_zss R_j re-read for every earlier call j < k.
 
-   c16_agree = the observation is exactly the model's (given the oracle values)
+   Every helper is run through its memory-level transcription (C16_Model).
+   Where Go leaves the VALUE of a result open — the order in which a map is
+   iterated (FindKey, FindByKey, MapUnique, Invert, MapKeys) or random numbers
+   (Shuffle) — the model keeps the status and the memory effects of its
+   transcription and takes the value of that one result from the observation
+   ([value_free]); Keys/Values/MapCollection/Duplicate are compared sorted.
+
+   c16_agree = the observation is exactly the model's
    c16_holds = the property on this observation, judged WITHOUT the model:
-       a call that is not in-place leaves both backing arrays as they were;
-       an in-place call changes at most s[0:len] of array 0 (Omit/OmitBy: may
-       only remove entries of map 0); and every earlier result re-reads
-       unchanged, except a VIEW of the argument (Drop, Chunk, the in-place
-       helpers' own return values, collections of references to the argument
-       maps) after an in-place call. *)
+       a call that is not in-place leaves both backing arrays and both maps as
+       they were; an in-place call changes at most the window [pre, pre+len) of
+       ITS array (Omit/OmitBy: may only remove entries of ITS map); and every
+       earlier result re-reads unchanged, except a VIEW of the in-place call's
+       target (Drop, Chunk, the in-place helpers' own return values,
+       collections of references to the argument maps). *)
 
-From Gogu Require Import Base SliceMem C14_Model C14_Wire C16_Model.
+From Gogu Require Import Base C14_Model C14_Wire SliceMem C16_Model.
 Local Open Scope Z_scope.
 
 Definition sent (id i : nat) : Z := - (1000 * (Z.of_nat id + 1) + Z.of_nat i).
@@ -38,71 +50,215 @@ Definition backing (id pre : nat) (es : list Z) (spare : nat) : list Z :=
 
 Definition slack0 := go_slack.
 
-(* ---------- kind 0: which helper is what ---------- *)
-
-Definition ip0 (fn : Z) : bool := match fn with 5 | 6 | 19 | 20 => true | _ => false end.
-Definition view0 (fn : Z) : bool := match fn with 5 | 6 | 7 | 8 | 19 => true | _ => false end.
-Definition modelled0 (fn : Z) : bool := (1 <=? fn) && (fn <=? 22).
-
 Definition cmp_of (x : Z) : Z -> Z -> bool := match x with 0 => Z.ltb | _ => Z.gtb end.
 
-(* allocate the oracle's lists as fresh arrays *)
-Fixpoint alloc_lists (ls : list (list Z)) : M (list slice) :=
-  match ls with
-  | [] => ret []
-  | l :: ls' =>
-      bind (alloc l) (fun id =>
-      bind (alloc_lists ls') (fun rest =>
-      ret (mkSlice id 0 (length l) (length l) :: rest)))
+(* map ids of the two argument maps and the collections built from them *)
+Definition id_m0 : nat := 2.
+Definition id_m1 : nat := 3.
+Definition id_L : nat := 4.
+Definition id_C : nat := 5.
+Definition id_C2 : nat := 8.
+Definition sent_code : Z := 99.
+
+(* what the codes in the cells of the outer arrays stand for *)
+Definition tbl_of (s t : slice) (c : Z) : slice :=
+  if c =? 0 then s else if c =? 1 then t
+  else if c =? sent_code then mkSlice 9 0 1 1
+  else mkSlice (s_arr t) (s_off t) (Z.to_nat (Z.modulo (7 * c) (Z.of_nat (s_len t) + 1))) (s_cap t).
+Definition mtbl_of (c : Z) : nat := if c =? 0 then id_m0 else if c =? 1 then id_m1 else 10%nat.
+Definition otbl_of (c : Z) : nat := if c =? 0 then 6%nat else if c =? 1 then 7%nat else 11%nat.
+
+(* ---------- the call table ---------- *)
+
+(* a call written with explicit arguments `Merge(s, t)`: Go builds the variadic slice afresh *)
+Definition with_args (codes : list Z) (k : slice -> M (list rref)) : M (list rref) :=
+  match codes with
+  | [] => k empty_slice
+  | _ => bind (alloc codes) (fun id => k (mkSlice id 0 (length codes) (length codes)))
   end.
 
-(* wire code -> helper call *)
-Definition hcall_of (fn x y : Z) (s t : slice) (lit : slice) : option hcall :=
+(* lists[x:y] / the whole coll / coll2 *)
+Definition sub_lists (nL : nat) (x y : Z) (k : slice -> M (list rref)) : M (list rref) :=
+  if (x <? 0) || (y <? 0) then fail
+  else bind (reslice (mkSlice id_L 1 nL (nL + 1)) (Z.to_nat x) (Z.to_nat y)) k.
+
+Definition call_of (nL nC : nat) (fn x y : Z) (s t : slice) : M (list rref) :=
+  let R := run_call slack0 in
+  let tbl := tbl_of s t in
+  let CS := mkSlice id_C 1 nC (nC + 1) in
+  let C2S := mkSlice id_C2 1 2 2 in
+  (* the caller's []any{s, []any{t, 5}, t}: a Gallina tree in the model (its cells cannot be written there);
+     the harness observes them ([print_A]) *)
+  let any_arg := NList [NSlice s; NList [NSlice t; NItem 5]; NSlice t] in
+  let p := vpred x y in
+  let f := vfun x in
   match fn with
-  | 1 => Some (HMerge s [t])
-  | 2 => Some (HMerge s [lit])            (* lit = the literal []int{x}, allocated by the caller *)
-  | 3 => Some (HMerge s [s])
-  | 4 => Some (HFilter (vpred x y) s)
-  | 5 => Some (HReject (vpred x y) s)
-  | 6 => Some (HReverse s)
-  | 7 => Some (HDrop s x)
-  | 8 => Some (HChunk s x)
-  | 9 => Some (HMap (vfun x) s)
-  | 10 => Some (HUnique s)
-  | 11 => Some (HWithout s t)
-  | 12 => Some (HDropWhile (vpred x y) s)
-  | 13 => Some (HDropRightWhile (vpred x y) s)
-  | 14 => Some (HPartition (vpred x y) s)
-  | 15 => Some (HDifference s t)
-  | 16 => Some (HIntersection [s; t])
-  | 17 => Some (HToSlice s)
-  | 18 => Some (HUniqueBy (vfun x) s)
-  | 19 => Some (HFromSlice (cmp_of x) s)
-  | 20 => Some (HSort (cmp_of x) s)
-  | 21 => Some (HMerge t [s])
-  | 22 => Some (HDifference t s)
+  | 1 => with_args [1] (fun ps => R (HMerge s tbl ps))
+  | 2 => bind (alloc [x]) (fun id =>                                       (* the literal []int{x} *)
+         with_args [5] (fun ps => R (HMerge s (fun _ => mkSlice id 0 1 1) ps)))
+  | 3 => with_args [0] (fun ps => R (HMerge s tbl ps))
+  | 4 => R (HFilter p s)
+  | 5 => R (HReject p s)
+  | 6 => R (HReverse s)
+  | 7 => R (HDrop s x)
+  | 8 => R (HChunk s x)
+  | 9 => R (HMap f s)
+  | 10 => R (HUnique s)
+  | 11 => R (HWithout s t)
+  | 12 => R (HDropWhile p s)
+  | 13 => R (HDropRightWhile p s)
+  | 14 => R (HPartition p s)
+  | 15 => R (HDifference s t)
+  | 16 => with_args [0; 1] (fun ps => R (HIntersection tbl ps))
+  | 17 => R (HToSlice s)
+  | 18 => R (HUniqueBy f s)
+  | 19 => R (HFromSlice (cmp_of x) s)
+  | 20 => R (HSort (cmp_of x) s)
+  | 21 => with_args [0] (fun ps => R (HMerge t tbl ps))
+  | 22 => R (HDifference t s)
+  | 23 => R (HShuffle [] s)
+  | 24 => R (HDuplicate s)
+  | 25 => R (HDuplicateWithIndex s)
+  | 26 => R (HFlatten (NList [NSlice s; NList [NSlice t; NItem 5]]))
+  | 27 => R (HUnion (NList [NSlice s; NSlice t]))
+  | 28 => with_args [0; 1] (fun ps => R (HIntersectionBy f tbl ps))
+  | 29 => R (HDifferenceBy f s t)
+  | 30 => R (HGroupBy f s)
+  | 31 => with_args [0; 1] (fun ps => R (HZip tbl ps))
+  | 32 => with_args [0; 1] (fun ps => R (HUnzip tbl ps))
+  | 33 => R (HFindAll p s)
+  | 34 => R (HRange s)
+  | 35 => R (HRangeRight s)
+  | 36 => R (HSliceToMap s t)
+  | 37 => R (HWithout t s)
+  | 38 => with_args [1; 0] (fun ps => R (HIntersectionBy f tbl ps))
+  | 39 => R (HDifferenceBy f t s)
+  | 40 => R (HReverse t)
+  | 41 => R (HReject p t)
+  | 42 => with_args [1; 0] (fun ps => R (HIntersection tbl ps))
+  | 43 => with_args [0; 0] (fun ps => R (HZip tbl ps))
+  | 44 => R (HFlatten (NList [NSlice s; NBad]))
+  | 45 => with_args [] (fun ps => R (HMerge s tbl ps))
+  | 46 => with_args [0; 0] (fun ps => R (HUnzip tbl ps))
+  | 47 => with_args (repeat 1 (Z.to_nat x)) (fun ps => R (HMerge s tbl ps))
+  | 48 => with_args (0 :: repeat 1 (Z.to_nat x)) (fun ps => R (HIntersection tbl ps))
+  | 49 => with_args (repeat 0 (Z.to_nat x)) (fun ps => R (HZip tbl ps))
+  | 50 => R (HSum s)
+  | 51 => R (HSumBy f s)
+  | 52 => R (HMean s)
+  | 53 => R (HIndexOf s y)
+  | 54 => R (HLastIndexOf s y)
+  | 55 => R (HForEach s)
+  | 56 => R (HForEachRight s)
+  | 57 => R (HReduce Z.add 0 s)
+  | 58 => R (HEvery p s)
+  | 59 => R (HSome p s)
+  | 60 => R (HContains s y)
+  | 61 => R (HFindIndex p s)
+  | 62 => R (HFindLastIndex p s)
+  | 63 => R (HFindMin s)
+  | 64 => R (HFindMinBy f s)
+  | 65 => R (HFindMax s)
+  | 66 => R (HFindMaxBy f s)
+  | 67 => R (HNth s y)
+  | 68 => R (HMin s)
+  | 69 => R (HMax s)
+  | 70 => sub_lists nL x y (fun ps => R (HMerge s tbl ps))                 (* the spread form: Merge(s, lists[x:y]...) *)
+  | 71 => sub_lists nL x y (fun ps => R (HIntersection tbl ps))
+  | 72 => sub_lists nL x y (fun ps => R (HIntersectionBy (vfun 4) tbl ps))
+  | 73 => sub_lists nL x y (fun ps => R (HZip tbl ps))
+  | 74 => sub_lists nL x y (fun ps => R (HUnzip tbl ps))
+  | 75 => R (HFlatten any_arg)                                              (* Flatten[int](anys) *)
+  | 76 => R (HUnion any_arg)
+  | 101 => R (HKeys id_m0)
+  | 102 => R (HValues id_m0)
+  | 103 => R (HPick id_m0 s)
+  | 104 => R (HPickBy (kvpred x y) id_m0)
+  | 105 => R (HFilterMap p id_m0)
+  | 106 => R (HOmit id_m0 s)
+  | 107 => R (HOmitBy (kvpred x y) id_m0)
+  | 108 => R (HMapValues f id_m0)
+  | 109 => R (HMapKeys (kfun x) id_m0)
+  | 110 => R (HInvert id_m0)
+  | 111 => R (HFind p id_m0)
+  | 112 => R (HFindKey p id_m0)
+  | 113 => R (HFindByKey p id_m0)
+  | 114 => R (HPluck mtbl_of CS y)
+  | 115 => R (HMapUnique id_m0)
+  | 116 => R (HMapEvery p id_m0)
+  | 117 => R (HMapSome p id_m0)
+  | 118 => R (HMapContains id_m0 y)
+  | 119 => R (HSliceToMap s s)
+  | 120 => R (HFilterMapCollection p mtbl_of CS)
+  | 121 => R (HFilter2D (mpred x y) otbl_of mtbl_of C2S)
+  | 122 => R (HPartitionMap (mpred x y) mtbl_of CS)
+  | 123 => R (HMapCollection f id_m0)
+  | 124 => R (HFindMinByKey mtbl_of CS y)
+  | 125 => R (HFindMaxByKey mtbl_of CS y)
+  | 126 => R (HPick id_m1 t)
+  | 127 => R (HOmit id_m1 t)
+  | _ => ret []                      (* not a call: the harness does nothing either *)
+  end.
+
+(* the object an in-place call may change: 0/1 = backing array of s/t (inside the window), 2/3 = map0/map1 (removals) *)
+Definition ip_target (fn : Z) : option nat :=
+  match fn with
+  | 5 | 6 | 19 | 20 => Some 0%nat
+  | 40 | 41 => Some 1%nat
+  | 106 | 107 => Some 2%nat
+  | 127 => Some 3%nat
   | _ => None
   end.
 
-Definition call0 (fn x y : Z) (s t : slice) (oracle : Z * list (list Z)) : M (list slice) :=
-  if fn =? 2 then
-    bind (alloc [x]) (fun id =>
-      match hcall_of fn x y s t (mkSlice id 0 1 1) with
-      | Some c => run_call slack0 c
-      | None => fail
-      end)
-  else
-    match hcall_of fn x y s t empty_slice with
-    | Some c => run_call slack0 c
-    | None =>
-        (* harness-only helper: the frame is the whole claim; whether it
-           panicked and what it returned is taken from the observation *)
-        if fst oracle =? 2 then fail else alloc_lists (snd oracle)
-    end.
+(* does what call fn returned refer to object k (so that it follows an in-place change of k)? *)
+Definition views (fn : Z) (k : nat) : bool :=
+  match fn, k with
+  | (5 | 6 | 7 | 8 | 19), 0%nat => true
+  | (40 | 41), 1%nat => true
+  | (106 | 107), 2%nat => true
+  | 127, 3%nat => true
+  | (120 | 122), (2%nat | 3%nat) => true
+  | _, _ => false
+  end.
+
+(* Go leaves the value of the result open: it is taken from the observation *)
+Definition value_free (fn : Z) : bool :=
+  match fn with 23 | 109 | 110 | 112 | 113 | 115 => true | _ => false end.
+(* the result is compared sorted (the harness sorts it: map iteration order) *)
+Definition value_sorted (fn : Z) : bool :=
+  match fn with 24 | 101 | 102 | 123 => true | _ => false end.
+
+(* ---------- reading references ---------- *)
+
+Definition wire_read (m : mem) (r : rref) : list Z :=
+  match r with
+  | RS pre s => pre ++ read_all m s
+  | RM id => kvflat (sort_kv (map_of m id))
+  | RV v => v
+  end.
+
+(* GroupBy: the groups in the order of their keys *)
+Fixpoint insert_ref (r : rref) (l : list rref) : list rref :=
+  match l with
+  | [] => [r]
+  | r' :: l' =>
+      match r, r' with
+      | RS (k :: _) _, RS (k' :: _) _ => if k <=? k' then r :: l else r' :: insert_ref r l'
+      | _, _ => r :: l
+      end
+  end.
+Definition canon_refs (fn : Z) (rs : list rref) : list rref :=
+  if fn =? 30 then fold_right insert_ref [] rs else rs.
+
+Definition read_result (fn : Z) (m : mem) (rs : list rref) : list (list Z) :=
+  map (fun r => if value_sorted fn then sort_z (wire_read m r) else wire_read m r) rs.
 
 (* ---------- observation records ---------- *)
 
-Record orec := mkRec { r_status : Z; r_res : list (list Z); r_b0 : list Z; r_b1 : list Z; r_re : list (list (list Z)) }.
+Record orec := mkRec { r_status : Z; r_res : list (list Z); r_bs : list (list Z); r_re : list (list (list Z)) }.
+
+Definition n_bs : nat := 8.
+Definition rd_bs (w : list Z) : option (list (list Z) * list Z) := rd_n rd_zs n_bs w.
 
 Fixpoint parse_recs (ncalls k : nat) (obs : list Z) : option (list orec) :=
   match ncalls with
@@ -113,16 +269,12 @@ Fixpoint parse_recs (ncalls k : nat) (obs : list Z) : option (list orec) :=
           let rres := if st =? 0 then rd_zss o1 else Some ([], o1) in
           match rres with
           | Some (R, o2) =>
-              match rd_zs o2 with
-              | Some (b0, o3) =>
-                  match rd_zs o3 with
-                  | Some (b1, o4) =>
-                      match rd_n rd_zss k o4 with
-                      | Some (re, o5) =>
-                          match parse_recs n' (S k) o5 with
-                          | Some rest => Some (mkRec st R b0 b1 re :: rest)
-                          | None => None
-                          end
+              match rd_bs o2 with
+              | Some (bs, o4) =>
+                  match rd_n rd_zss k o4 with
+                  | Some (re, o5) =>
+                      match parse_recs n' (S k) o5 with
+                      | Some rest => Some (mkRec st R bs re :: rest)
                       | None => None
                       end
                   | None => None
@@ -137,27 +289,49 @@ Fixpoint parse_recs (ncalls k : nat) (obs : list Z) : option (list orec) :=
 
 Definition enc_rec (r : orec) : list Z :=
   r_status r :: (if r_status r =? 0 then enc_zss (r_res r) else [])
-  ++ enc_zs (r_b0 r) ++ enc_zs (r_b1 r) ++ flat_map enc_zss (r_re r).
+  ++ flat_map enc_zs (r_bs r) ++ flat_map enc_zss (r_re r).
 
 (* ---------- decoded programs ---------- *)
 
-Record prog0 := mkP0 { p_pre : nat; p_spare : nat; p_es : list Z; p_tpre : nat; p_tspare : nat; p_et : list Z;
-                       p_calls : list (list Z) }.
+Record prog := mkP { p_pre : nat; p_spare : nat; p_es : list Z; p_tpre : nat; p_tspare : nat; p_et : list Z;
+                     p_m0 : amap; p_m1 : amap; p_L : list Z; p_C : list Z; p_calls : list (list Z) }.
 
 Definition calls_ok (cs : list (list Z)) : bool :=
   forallb (fun c => Nat.eqb (length c) 3) cs && (Nat.leb (length cs) 4).
 
-Definition small (x : Z) : option nat := if (0 <=? x) && (x <=? 64) then Some (Z.to_nat x) else None.
+Definition small (x : Z) : option nat := if (0 <=? x) && (x <=? 100000) then Some (Z.to_nat x) else None.
 
-Definition decode0 (w : list Z) : option prog0 :=
+(* a Go map built from a flat list (a later entry overwrites an earlier one), in key order *)
+Definition canon_map (l : list Z) : amap :=
+  sort_kv (fold_left (fun a kv => map_set a (fst kv) (snd kv)) (pairs_of l) []).
+
+Definition decode (w : list Z) : option prog :=
   match w with
   | pre :: spare :: w1 =>
       match small pre, small spare, rd_zs w1 with
       | Some pre, Some spare, Some (es, tpre :: tspare :: w2) =>
           match small tpre, small tspare, rd_zs w2 with
           | Some tpre, Some tspare, Some (et, w3) =>
-              let cs := chunks 3 w3 in
-              if calls_ok cs then Some (mkP0 pre spare es tpre tspare et cs) else None
+              match rd_zs w3 with
+              | Some (l0, w4) =>
+                  match rd_zs w4 with
+                  | Some (l1, w5) =>
+                      match rd_zs w5 with
+                      | Some (lL, w6) =>
+                          match rd_zs w6 with
+                          | Some (lC, w7) =>
+                              let cs := chunks 3 w7 in
+                              if calls_ok cs && forallb (fun c => (0 <=? c) && (c <? sent_code)) lL
+                                 && forallb (fun c => (0 <=? c) && (c <=? 1)) lC
+                              then Some (mkP pre spare es tpre tspare et (canon_map l0) (canon_map l1) lL lC cs) else None
+                          | None => None
+                          end
+                      | None => None
+                      end
+                  | None => None
+                  end
+              | None => None
+              end
           | _, _, _ => None
           end
       | _, _, _ => None
@@ -165,110 +339,61 @@ Definition decode0 (w : list Z) : option prog0 :=
   | _ => None
   end.
 
-(* run the calls; [oracles] = the observed result of each call, used only for
-   the harness-only helpers *)
-Fixpoint run0 (s t : slice) (calls : list (list Z)) (oracles : list (Z * list (list Z)))
-              (m : mem) (prev : list (list slice)) : list orec :=
+(* what the cells of the outer arrays show: every slice with its length, every map with its entries *)
+Definition show_map (m : mem) (id : nat) : list Z := enc_zs (kvflat (sort_kv (map_of m id))).
+Definition print_L (s t : slice) (m : mem) : list Z :=
+  flat_map (fun c => enc_zs (read_all m (tbl_of s t c))) (arr_of m id_L).
+Definition print_C (m : mem) : list Z := flat_map (fun c => show_map m (mtbl_of c)) (arr_of m id_C).
+Definition print_C2 (m : mem) : list Z :=
+  flat_map (fun c => let o := sort_kv (map_of m (otbl_of c)) in
+                     Z.of_nat (length o) :: flat_map (fun kc => fst kc :: show_map m (mtbl_of (snd kc))) o)
+           (arr_of m id_C2).
+
+(* the cells of the caller's []any (with a sentinel cell before and behind): 1 len elems = a []int, 2 v = an int,
+   3 n cells = a []any, 9 = the sentinel *)
+Definition print_A (s t : slice) (m : mem) : list Z :=
+  let sl (x : slice) := 1 :: enc_zs (read_all m x) in
+  [9] ++ sl s ++ [3; 2] ++ sl t ++ [2; 5] ++ sl t ++ [9].
+
+Definition backings (s t : slice) (m : mem) : list (list Z) :=
+  [arr_of m 0%nat; arr_of m 1%nat; kvflat (sort_kv (map_of m id_m0)); kvflat (sort_kv (map_of m id_m1));
+   print_L s t m; print_C m; print_C2 m; print_A s t m].
+
+(* the memory a program starts in, given the contents of the four primary objects *)
+Definition world (b0 b1 m0 m1 : list Z) (L C : list Z) : mem :=
+  [b0; b1; m0; m1; sent_code :: L ++ [sent_code]; sent_code :: C ++ [sent_code];
+   [0; 0; 1; 1]; [2; 1]; [sent_code; 0; 1; sent_code]; [-4242]; [-1; -1]; []].
+
+(* run the calls; [oracles] = the observed (status, result) of each call, used only for [value_free] results *)
+Fixpoint run_calls (nL nC : nat) (s t : slice) (calls : list (list Z)) (oracles : list (Z * list (list Z)))
+                   (m : mem) (prev : list (Z * list rref)) : list orec :=
   match calls with
   | [] => []
   | c :: calls' =>
       let fn := zget c 0 in
       let oracle := hd (0, []) oracles in
       let '(st, R, m') :=
-          match call0 fn (zget c 1) (zget c 2) s t oracle m with
-          | Some (R, m') => (0, R, m')
+          match call_of nL nC fn (zget c 1) (zget c 2) s t m with
+          | Some (R, m') => (0, (if value_free fn then map RV (snd oracle) else canon_refs fn R), m')
           | None => (2, [], m)
           end in
-      mkRec st (map (read_all m') R) (arr_of m' 0%nat) (arr_of m' 1%nat)
-            (map (fun Rj => map (read_all m') Rj) prev)
-      :: run0 s t calls' (tl oracles) m' (prev ++ [R])
+      mkRec st (read_result fn m' R) (backings s t m')
+            (map (fun fr => read_result (fst fr) m' (snd fr)) prev)
+      :: run_calls nL nC s t calls' (tl oracles) m' (prev ++ [(fn, R)])
   end.
 
-Definition recs0 (p : prog0) (oracles : list (Z * list (list Z))) : list orec :=
-  let n := length (p_es p) in let tn := length (p_et p) in
-  let m0 : mem := [backing 0 (p_pre p) (p_es p) (p_spare p); backing 1 (p_tpre p) (p_et p) (p_tspare p)] in
-  run0 (mkSlice 0 (p_pre p) n (n + p_spare p)) (mkSlice 1 (p_tpre p) tn (tn + p_tspare p))
-       (p_calls p) oracles m0 [].
+Definition slice_s (p : prog) : slice := mkSlice 0 (p_pre p) (length (p_es p)) (length (p_es p) + p_spare p).
+Definition slice_t (p : prog) : slice := mkSlice 1 (p_tpre p) (length (p_et p)) (length (p_et p) + p_tspare p).
 
-(* ---------- kind 1: map programs ---------- *)
-
-Definition ip1 (fn : Z) : bool := match fn with 6 | 7 => true | _ => false end.
-Definition view1 (fn : Z) : bool := match fn with 6 | 7 | 20 | 21 | 22 => true | _ => false end.
-
-Inductive mres :=
-| RMaps (ids : list nat)               (* maps, by reference *)
-| RConst (ls : list (list Z)).         (* plain values *)
-
-Definition read_mres (mm : mmem) (r : mres) : list (list Z) :=
-  match r with
-  | RMaps ids => map (fun id => flat (sort_kv (mm_get mm id))) ids
-  | RConst ls => ls
-  end.
-
-Record prog1 := mkP1 { q_m0 : amap; q_m1 : amap; q_ks : list Z; q_calls : list (list Z) }.
-
-Definition decode1 (w : list Z) : option prog1 :=
-  match rd_map w with
-  | Some (m0, w1) =>
-      match rd_map w1 with
-      | Some (m1, w2) =>
-          match rd_zs w2 with
-          | Some (ks, w3) =>
-              let cs := chunks 3 w3 in
-              if calls_ok cs then Some (mkP1 m0 m1 ks cs) else None
-          | None => None
-          end
-      | None => None
-      end
-  | None => None
-  end.
-
-Definition coll_ids : list nat := [0; 1; 0]%nat.
-(* the two-dimensional collection handed to Filter2DMapCollection:
-   [ {0: map0, 1: map1}, {2: map1} ]  (inner maps by reference) *)
-Definition coll2_ids : list (list (Z * nat)) := [[(0, 0%nat); (1, 1%nat)]; [(2, 1%nat)]].
-
-Definition call1 (fn c a : Z) (ks : list Z) (oracle : Z * list (list Z)) (mm : mmem) : option (mres * mmem) :=
-  match fn with
-  | 3 => match pick_mm 0 ks mm with
-         | (Ok id, mm') => Some (RMaps [id], mm')
-         | (_, mm') => Some (RConst [], mm')
-         end
-  | 5 => let (id, mm') := filter_map_mm 0 (vpred c a) mm in Some (RMaps [id], mm')
-  | 6 => let (id, mm') := omit_mm 0 ks mm in Some (RMaps [id], mm')
-  | 7 => let (id, mm') := omit_by_mm 0 (kvpred c a) mm in Some (RMaps [id], mm')
-  | 8 => let (id, mm') := map_values_mm 0 (vfun c) mm in Some (RMaps [id], mm')
-  | 20 => Some (RMaps (filter (fun id => inner_hit (vpred c a) (mm_get mm id)) coll_ids), mm)
-  | 21 => Some (RMaps (flat_map (fun item => map snd item)
-                         (filter (fun item => inner_hit (mpred c a) (map (fun e => (fst e, mm_get mm (snd e))) item))
-                                 coll2_ids)), mm)
-  | 22 => let '(r0, r1, mm') := partition_map_mm (mpred c a) coll_ids mm in
-          Some (RMaps (r0 ++ r1), mm')
-  | _ => (* harness-only: allocates its result, touches nothing *)
-      if fst oracle =? 2 then None else Some (RConst (snd oracle), mm)
-  end.
-
-Fixpoint run1 (ks : list Z) (calls : list (list Z)) (oracles : list (Z * list (list Z)))
-              (mm : mmem) (prev : list mres) : list orec :=
-  match calls with
-  | [] => []
-  | c :: calls' =>
-      let fn := zget c 0 in
-      let oracle := hd (0, []) oracles in
-      let '(st, R, mm') :=
-          match call1 fn (zget c 1) (zget c 2) ks oracle mm with
-          | Some (R, mm') => (0, R, mm')
-          | None => (2, RConst [], mm)
-          end in
-      mkRec st (read_mres mm' R) (flat (sort_kv (mm_get mm' 0%nat))) (flat (sort_kv (mm_get mm' 1%nat)))
-            (map (read_mres mm') prev)
-      :: run1 ks calls' (tl oracles) mm' (prev ++ [R])
-  end.
-
-Definition recs1 (p : prog1) (oracles : list (Z * list (list Z))) : list orec :=
-  run1 (q_ks p) (q_calls p) oracles [q_m0 p; q_m1 p] [].
+Definition recs (p : prog) (oracles : list (Z * list (list Z))) : list orec :=
+  let m0 : mem := world (backing 0 (p_pre p) (p_es p) (p_spare p)) (backing 1 (p_tpre p) (p_et p) (p_tspare p))
+                        (kvflat (p_m0 p)) (kvflat (p_m1 p)) (p_L p) (p_C p) in
+  run_calls (length (p_L p)) (length (p_C p)) (slice_s p) (slice_t p) (p_calls p) oracles m0 [].
 
 (* ---------- run / agree ---------- *)
+
+Definition zss_eqb (a b : list (list Z)) : bool := zlist_eqb (enc_zss a) (enc_zss b).
+
 
 Definition oracle_of (ncalls : nat) (obs : list Z) : list (Z * list (list Z)) :=
   match parse_recs ncalls 0 obs with
@@ -277,24 +402,58 @@ Definition oracle_of (ncalls : nat) (obs : list Z) : list (Z * list (list Z)) :=
   end.
 
 Definition run_with (w : list Z) (oracle_src : list Z) : list Z :=
-  match w with
-  | 0 :: w' => match decode0 w' with
-               | Some p => flat_map enc_rec (recs0 p (oracle_of (length (p_calls p)) oracle_src))
-               | None => wire_error
-               end
-  | 1 :: w' => match decode1 w' with
-               | Some p => flat_map enc_rec (recs1 p (oracle_of (length (q_calls p)) oracle_src))
-               | None => wire_error
-               end
-  | _ => wire_error
+  match decode w with
+  | Some p => flat_map enc_rec (recs p (oracle_of (length (p_calls p)) oracle_src))
+  | None => wire_error
   end.
 
 Definition c16_run (w : list Z) : list Z := run_with w [].
-Definition c16_agree (w obs : list Z) : bool := zlist_eqb obs (run_with w obs).
+
+(* agreement, record by record.  One thing is left open: once an in-place call on
+   object k has run, the re-reads of EARLIER results that are views of k (Drop,
+   Chunk, Reject's own return value, references to the argument maps) are not
+   compared with the model — whether such a result shares storage with the
+   argument or is a copy is not part of the property (a Chunk that copies must
+   stay green; [c16_holds] still requires every such result to be stable under
+   all later calls that are not in-place on k).  Everything else — status,
+   result, all four objects, all other re-reads — must be exactly the model's. *)
+Fixpoint zip_taint (tg : option nat) (fns : list Z) (taint : list bool) : list bool :=
+  match fns, taint with
+  | f :: fns', b :: taint' => (b || match tg with Some k => views f k | None => false end) :: zip_taint tg fns' taint'
+  | _, _ => []
+  end.
+
+Fixpoint re_agree (taint : list bool) (a b : list (list (list Z))) : bool :=
+  match taint, a, b with
+  | [], [], [] => true
+  | tn :: taint', x :: a', y :: b' => (tn || zss_eqb x y) && re_agree taint' a' b'
+  | _, _, _ => false
+  end.
+
+Fixpoint recs_agree (calls : list (list Z)) (fns_done : list Z) (taint : list bool) (model obs : list orec) : bool :=
+  match calls, model, obs with
+  | [], [], [] => true
+  | c :: calls', a :: model', b :: obs' =>
+      let fn := zget c 0 in
+      let taint' := zip_taint (ip_target fn) fns_done taint in
+      (r_status a =? r_status b) && zss_eqb (r_res a) (r_res b) && zss_eqb (r_bs a) (r_bs b)
+      && re_agree taint' (r_re a) (r_re b)
+      && recs_agree calls' (fns_done ++ [fn]) (taint' ++ [false]) model' obs'
+  | _, _, _ => false
+  end.
+
+Definition c16_agree (w obs : list Z) : bool :=
+  match decode w with
+  | Some p =>
+      match parse_recs (length (p_calls p)) 0 obs with
+      | Some orecs => recs_agree (p_calls p) [] [] (recs p (map (fun r => (r_status r, r_res r)) orecs)) orecs
+      | None => false
+      end
+  | None => zlist_eqb obs wire_error
+  end.
 
 (* ---------- the property on one observation ---------- *)
 
-Definition zss_eqb (a b : list (list Z)) : bool := zlist_eqb (enc_zss a) (enc_zss b).
 
 (* equal outside the window [lo, lo+n) *)
 Definition eq_outside (lo n : nat) (a b : list Z) : bool :=
@@ -306,52 +465,67 @@ Definition eq_outside (lo n : nat) (a b : list Z) : bool :=
 Definition submap (new old : list Z) : bool :=
   forallb (fun kv => mem_kv kv (pairs_of old)) (pairs_of new).
 
-Fixpoint check_re (inplace : bool) (view : Z -> bool) (fns : list Z) (prevR now : list (list (list Z))) : bool :=
+(* what an in-place call may do to object k *)
+Definition inplace_ok (p : prog) (k : nat) (old new : list Z) : bool :=
+  match k with
+  | 0%nat => eq_outside (p_pre p) (length (p_es p)) old new
+  | 1%nat => eq_outside (p_tpre p) (length (p_et p)) old new
+  | _ => submap new old
+  end.
+
+(* the outer arrays must show, cell by cell, what their (unchanged) codes stand for in the record's OWN
+   primary objects: the order, number and identity of their elements is as the caller left them *)
+Definition outer_ok (p : prog) (bs : list (list Z)) : bool :=
+  match bs with
+  | [b0; b1; m0; m1; pL; pC; pC2; pA] =>
+      let w := world b0 b1 m0 m1 (p_L p) (p_C p) in
+      zlist_eqb pL (print_L (slice_s p) (slice_t p) w) && zlist_eqb pC (print_C w) && zlist_eqb pC2 (print_C2 w)
+      && zlist_eqb pA (print_A (slice_s p) (slice_t p) w)
+  | _ => false
+  end.
+
+Fixpoint check_bs (p : prog) (tg : option nat) (k : nat) (old new : list (list Z)) : bool :=
+  match old, new with
+  | [], [] => true
+  | o :: old', b :: new' =>
+      (match tg with
+       | Some j => if Nat.eqb j k then inplace_ok p k o b else zlist_eqb o b
+       | None => zlist_eqb o b
+       end) && check_bs p tg (S k) old' new'
+  | _, _ => false
+  end.
+
+Fixpoint check_re (tg : option nat) (fns : list Z) (prevR now : list (list (list Z))) : bool :=
   match fns, prevR, now with
   | [], [], [] => true
-  | f :: fns', p :: prevR', r :: now' =>
-      ((inplace && view f) || zss_eqb p r) && check_re inplace view fns' prevR' now'
+  | f :: fns', pr :: prevR', r :: now' =>
+      ((match tg with Some k => views f k | None => false end) || zss_eqb pr r) && check_re tg fns' prevR' now'
   | _, _, _ => false
   end.
 
-Fixpoint check_recs (ip view : Z -> bool) (b0_inplace_ok : list Z -> list Z -> bool)
-                    (calls : list (list Z)) (recs : list orec)
-                    (fns_done : list Z) (prevR : list (list (list Z))) (b0 b1 : list Z) : bool :=
-  match calls, recs with
+Fixpoint check_recs (p : prog) (calls : list (list Z)) (rcs : list orec)
+                    (fns_done : list Z) (prevR : list (list (list Z))) (bs : list (list Z)) : bool :=
+  match calls, rcs with
   | [], [] => true
-  | c :: calls', r :: recs' =>
+  | c :: calls', r :: rcs' =>
       let fn := zget c 0 in
-      let inpl := ip fn in
-      (if inpl then b0_inplace_ok b0 (r_b0 r) else zlist_eqb b0 (r_b0 r))
-      && zlist_eqb b1 (r_b1 r)
-      && check_re inpl view fns_done prevR (r_re r)
-      && check_recs ip view b0_inplace_ok calls' recs' (fns_done ++ [fn]) (r_re r ++ [r_res r]) (r_b0 r) (r_b1 r)
+      let tg := ip_target fn in
+      outer_ok p (r_bs r)
+      && check_bs p tg 0 (firstn 4 bs) (firstn 4 (r_bs r))
+      && check_re tg fns_done prevR (r_re r)
+      && check_recs p calls' rcs' (fns_done ++ [fn]) (r_re r ++ [r_res r]) (r_bs r)
   | _, _ => false
   end.
 
 Definition c16_holds (w obs : list Z) : bool :=
-  match w with
-  | 0 :: w' =>
-      match decode0 w' with
-      | Some p =>
-          match parse_recs (length (p_calls p)) 0 obs with
-          | Some recs =>
-              check_recs ip0 view0 (eq_outside (p_pre p) (length (p_es p))) (p_calls p) recs [] []
-                         (backing 0 (p_pre p) (p_es p) (p_spare p)) (backing 1 (p_tpre p) (p_et p) (p_tspare p))
-          | None => false
-          end
+  match decode w with
+  | Some p =>
+      match parse_recs (length (p_calls p)) 0 obs with
+      | Some rcs =>
+          check_recs p (p_calls p) rcs [] []
+                     [backing 0 (p_pre p) (p_es p) (p_spare p); backing 1 (p_tpre p) (p_et p) (p_tspare p);
+                      kvflat (p_m0 p); kvflat (p_m1 p)]
       | None => false
       end
-  | 1 :: w' =>
-      match decode1 w' with
-      | Some p =>
-          match parse_recs (length (q_calls p)) 0 obs with
-          | Some recs =>
-              check_recs ip1 view1 (fun old new => submap new old) (q_calls p) recs [] []
-                         (flat (sort_kv (q_m0 p))) (flat (sort_kv (q_m1 p)))
-          | None => false
-          end
-      | None => false
-      end
-  | _ => false
+  | None => false
   end.
